@@ -320,12 +320,20 @@ pub fn main_for(pid: &str) {
         let cfg = HistCfg { steps: 1, refusal_bias: 0, with_clonep: false, with_rmws: false, rmws_pct: 0, clone_pct: 0 };
         let mut r = base.fork(u64::MAX);
         let mut idx = 0usize;
-        for start in small_forests(&pool, max_kids) {
+        // the quick tier takes the forests with three children too, but there only with the element and its three children as
+        // arguments (the seams: a node moved, replaced, wrapped or removed between two others)
+        for start in small_forests(&pool, 3) {
+            let nkids = match &start[0] { ANode::Doc(d) => match &d[0] { ANode::Elem { kids, .. } => kids.len(), _ => 0 }, _ => 0 };
             let mut probe = Store::new();
             let _ = make_pool(&mut probe.xot, &mut probe.reg, true);
             for t in &start { let n = build(&mut probe.xot, &probe.reg, t); probe.learn(n); }
             probe.refresh();
-            let hs = probe.live_handles();
+            let mut hs = probe.live_handles();
+            if nkids > max_kids {
+                let doc = probe.roots().into_iter().find(|h| probe.xot.is_document(probe.known[h])).map(|h| probe.known[&h]);
+                let el = doc.and_then(|d| probe.xot.first_child(d));
+                hs.retain(|h| { let n = probe.known[h]; Some(n) == el || (probe.xot.parent(n) == el && !probe.xot.is_attribute_node(n) && !probe.xot.is_namespace_node(n)) });
+            }
             for op in small_ops(&hs, pool.names[1 % pool.names.len()]) {
                 let case = format!("x{}", idx);
                 idx += 1;
